@@ -3,6 +3,7 @@ package main
 import (
 	"fmt"
 	"sort"
+	"strings"
 
 	"golang.org/x/tools/go/ssa"
 )
@@ -102,7 +103,16 @@ func rulePairsBeforeCreation(p *Prog, r *Report, rule string) {
 // `go fetch(a); go fetch(b)` with `err = …` inside fetch: whichever goroutine finishes last
 // decides what the caller sees; a failure reported first is overwritten by a later nil.
 func ruleSharedErrorInGoroutines(p *Prog, r *Report, rule string) {
-	r.rule(rule, "A failure is not overwritten: no function started as a goroutine more than once (two `go` statements, or one inside a loop) stores into an error variable it shares with its siblings (a captured variable or a pointer parameter). With a shared variable the goroutine that finishes last decides: a request that failed first is followed by a nil from the one that succeeded, and the run goes on with an empty list.")
+	ruleSharedStateInGoroutines(p, r, rule, true)
+}
+
+// ruleSharedStateInGoroutines: errorsOnly = false looks at every variable the goroutines share.
+func ruleSharedStateInGoroutines(p *Prog, r *Report, rule string, errorsOnly bool) {
+	if !errorsOnly {
+		r.rule(rule, "Results are not lost between goroutines: no function started as a goroutine more than once (two `go` statements, or one inside a loop) stores into a variable it shares with its siblings (captured, global, pointer parameter) unless it takes a lock (sync.Mutex / RWMutex) somewhere. Unsynchronised appends to one slice overwrite each other: a device that was found to need approve drops out of the list.")
+	} else {
+		r.rule(rule, "A failure is not overwritten: no function started as a goroutine more than once (two `go` statements, or one inside a loop) stores into an error variable it shares with its siblings (a captured variable or a pointer parameter). With a shared variable the goroutine that finishes last decides: a request that failed first is followed by a nil from the one that succeeded, and the run goes on with an empty list.")
+	}
 	n := 0
 	starts := map[*ssa.Function][]ssa.Instruction{}
 	for _, fn := range allModFuncs(p) {
@@ -126,6 +136,9 @@ func ruleSharedErrorInGoroutines(p *Prog, r *Report, rule string) {
 			if blockReaches(b, b) {
 				multi = true // inside a loop
 			}
+			if g.Parent().Parent() != nil {
+				multi = true // inside a closure (a callback such as a directory walk): entered many times
+			}
 		}
 		if !multi {
 			continue
@@ -134,7 +147,10 @@ func ruleSharedErrorInGoroutines(p *Prog, r *Report, rule string) {
 			for _, b := range f.Blocks {
 				for _, in := range b.Instrs {
 					st, ok := in.(*ssa.Store)
-					if !ok || !isErrorType(st.Val.Type()) {
+					if !ok || (errorsOnly && !isErrorType(st.Val.Type())) {
+						continue
+					}
+					if !errorsOnly && takesLock(cal) {
 						continue
 					}
 					root := cellRootOf(st.Addr)
@@ -146,12 +162,95 @@ func ruleSharedErrorInGoroutines(p *Prog, r *Report, rule string) {
 						shared = true
 					}
 					if shared {
-						r.add(rule, "shared-error|"+fnDisplay(cal), p.ipos(st), "error variable written by "+fnDisplay(cal), false,
-							fmt.Sprintf("%s is started as a goroutine %d time(s) (%s) and stores into an error variable that all of them share: a later success overwrites an earlier failure", fnDisplay(cal), len(gl), p.ipos(gl[0])))
+						what, effect := "error variable", "a later success overwrites an earlier failure"
+						if !errorsOnly {
+							what, effect = "variable", "unsynchronised writes overwrite each other and results are lost"
+						}
+						r.add(rule, "shared-state|"+fnDisplay(cal), p.ipos(st), what+" shared by goroutines is written by "+fnDisplay(cal), false,
+							fmt.Sprintf("%s runs as a goroutine (started at %s, possibly many at a time) and stores into a %s that all of them share: %s", fnDisplay(cal), p.ipos(gl[0]), what, effect))
 					}
 				}
 			}
 		}
 	}
 	r.add(rule, "go-statements-examined", "", fmt.Sprintf("%d go statement(s) in the module examined", n), true, "")
+}
+
+// R-FOLD: where letter case is folded.
+func foldSites(p *Prog) map[string]int {
+	out := map[string]int{}
+	for _, fn := range allModFuncs(p) {
+		if fn.Synthetic != "" {
+			continue
+		}
+		for _, cs := range callsOf(fn) {
+			if cs.Static == nil {
+				continue
+			}
+			switch rawShortName(cs.Static) {
+			case "strings.EqualFold", "strings.ToLower", "strings.ToUpper", "bytes.EqualFold", "bytes.ToLower", "bytes.ToUpper", "strings.ToTitle":
+				out[fnDisplay(fn)+"\t"+rawShortName(cs.Static)]++
+			}
+		}
+	}
+	return out
+}
+
+func ruleCaseFolding(p *Prog, r *Report, rule, prop string, pkgs map[string]bool) {
+	r.rule(rule, "Letter case is folded only where that was audited (tables/fold_audit.tsv: the iptables normaliser, the enable prompt, the vsys marker, one Cisco keyword): names of chains, interfaces, objects and log prefixes are case-sensitive on the devices, so a comparison that ignores case (strings.EqualFold, ToLower / ToUpper on an operand) reports two different configurations as equal.")
+	want := map[string]int{}
+	why := map[string]string{}
+	for _, row := range readTable("fold_audit.tsv", 4) {
+		n := 1
+		fmt.Sscanf(row[2], "%d", &n)
+		want[row[0]+"\t"+row[1]] = n
+		why[row[0]+"\t"+row[1]] = row[3]
+	}
+	got := foldSites(p)
+	var keys []string
+	for k := range got {
+		keys = append(keys, k)
+	}
+	sort.Strings(keys)
+	n := 0
+	for _, k := range keys {
+		fnName, _, _ := strings.Cut(k, "\t")
+		f := fnDisplayIndex(p)[fnName]
+		if f == nil || !pkgs[pkgOfFunc(f)] {
+			continue
+		}
+		n++
+		r.add(rule, "fold|"+strings.ReplaceAll(k, "\t", "|"), p.pos(f.Pos()), fmt.Sprintf("%d call(s) of %s (%s)", got[k], strings.ReplaceAll(k, "\t", " -> "), why[k]), got[k] <= want[k],
+			fmt.Sprintf("letter case is folded at a place that was not audited (%d call(s), %d audited)", got[k], want[k]))
+	}
+	r.add(rule, "fold-sites-examined", "", fmt.Sprintf("%d function/callee pairs that fold case examined for %s", n, prop), true, "")
+}
+
+func init() {
+	dumpers["foldrows"] = func(p *Prog, m *Model) {
+		g := foldSites(p)
+		var keys []string
+		for k := range g {
+			keys = append(keys, k)
+		}
+		sort.Strings(keys)
+		for _, k := range keys {
+			fmt.Printf("%s\t%d\tREASON\n", k, g[k])
+		}
+	}
+}
+
+// takesLock: the function (with its closures) calls Lock on a sync.Mutex / RWMutex.
+func takesLock(f *ssa.Function) bool {
+	for _, g := range treeOf(f) {
+		for _, cs := range callsOf(g) {
+			if cs.Static != nil {
+				switch rawShortName(cs.Static) {
+				case "(*sync.Mutex).Lock", "(*sync.RWMutex).Lock":
+					return true
+				}
+			}
+		}
+	}
+	return false
 }
